@@ -232,6 +232,10 @@ pub struct TableSpec {
     pub view: bool,
     pub sorted_by_id: bool,
     pub cooperative: bool,
+    /// `Some("parquet" | "json")`: the table is not a simulated source but files in the simulated
+    /// object store (one per partition) behind a listing table
+    pub storage: Option<String>,
+    pub row_group: usize,
     /// `Some((column, n))`: the table is exposed through a view whose `column` goes through the
     /// identity UDF `boom`, which fails at the evaluation that covers its n-th row (0-based)
     pub udf_fault: Option<(String, u64)>,
@@ -249,6 +253,12 @@ pub fn parse_tables(v: &Value) -> Option<Vec<TableSpec>> {
             view: t.get("view").and_then(|x| x.as_bool()).unwrap_or(false),
             sorted_by_id: t.get("order").and_then(|x| x.as_str()) == Some("id"),
             cooperative: t.get("coop").and_then(|x| x.as_bool()).unwrap_or(false),
+            storage: match t.get("storage").and_then(|x| x.as_str()) {
+                Some(f) if ["parquet", "json"].contains(&f) => Some(f.to_string()),
+                Some(_) => return None,
+                None => None,
+            },
+            row_group: t.get("row_group").and_then(|x| x.as_u64()).unwrap_or(1000).clamp(1, 1 << 20) as usize,
             udf_fault: match t.get("udf_fault") {
                 None | Some(Value::Null) => None,
                 Some(f) => {
@@ -291,6 +301,10 @@ pub fn build_session(env: &EnvSpec, knobs: &Value, tables: &[TableSpec]) -> Opti
     let ctx = SessionContext::new_with_config_rt(cfg, Arc::clone(&cx.runtime));
     let mut stats = vec![];
     for t in tables {
+        if t.storage.is_some() && !all_rows(&t.scripts).is_empty() {
+            // registered by `register_file_tables` (needs the object store and an async context)
+            continue;
+        }
         let st = Arc::new(SourceStats::default());
         let tbl = SimTable {
             name: t.name.clone(),
@@ -324,6 +338,93 @@ pub fn build_session(env: &EnvSpec, knobs: &Value, tables: &[TableSpec]) -> Opti
         stats.push((t.name.clone(), st));
     }
     Some(SimSession { ctx, env: cx, tables: stats })
+}
+
+/// File-backed tables: writes one file per non-empty partition into a simulated object store
+/// (chunked / pending / delayed GETs from `store`), registers the store under sim://bucket and a
+/// listing table over each table's directory. Returns the store (for its statistics).
+pub async fn register_file_tables(sess: &SimSession, tables: &[TableSpec], store: &Value) -> std::result::Result<Option<Arc<crate::objstore::SimObjectStore>>, String> {
+    use object_store::path::Path;
+    use object_store::{ObjectStoreExt, PutPayload};
+    if !tables.iter().any(|t| t.storage.is_some() && !all_rows(&t.scripts).is_empty()) {
+        return Ok(None);
+    }
+    let spec = crate::objstore::StoreSpec::parse(store).unwrap_or_default();
+    let st = crate::objstore::SimObjectStore::new(spec);
+    sess.ctx.register_object_store(&url::Url::parse("sim://bucket").unwrap(), st.clone());
+    for t in tables {
+        let Some(fmt) = &t.storage else { continue };
+        if all_rows(&t.scripts).is_empty() {
+            continue;
+        }
+        for (p, script) in t.scripts.iter().enumerate() {
+            let rows: Vec<Row> = script.iter().filter_map(|s| if let Step::Batch(r) = s { Some(r.clone()) } else { None }).flatten().collect();
+            if rows.is_empty() {
+                continue;
+            }
+            let bytes: Vec<u8> = if fmt == "parquet" {
+                let batch = crate::data::rows_to_batch(&rows);
+                let props = datafusion::parquet::file::properties::WriterProperties::builder().set_max_row_group_row_count(Some(t.row_group.max(1))).build();
+                let mut buf = vec![];
+                let mut w = datafusion::parquet::arrow::ArrowWriter::try_new(&mut buf, batch.schema(), Some(props)).map_err(|e| e.to_string())?;
+                w.write(&batch).map_err(|e| e.to_string())?;
+                w.close().map_err(|e| e.to_string())?;
+                buf
+            } else {
+                rows.iter()
+                    .map(|r| {
+                        let mut m = serde_json::Map::new();
+                        m.insert("id".into(), json!(r.id));
+                        m.insert("k".into(), json!(r.k));
+                        m.insert("s".into(), json!(r.s));
+                        m.insert("v".into(), json!(r.v));
+                        format!("{}\n", Value::Object(m))
+                    })
+                    .collect::<String>()
+                    .into_bytes()
+            };
+            let path = Path::from(format!("{}/part-{p}.{fmt}", t.name));
+            st.inner.put(&path, PutPayload::from(bytes)).await.map_err(|e| e.to_string())?;
+        }
+        let stored = if fmt == "parquet" { "PARQUET" } else { "JSON" };
+        let ddl = format!("CREATE EXTERNAL TABLE {} (id BIGINT NOT NULL, k INT, s VARCHAR, v BIGINT) STORED AS {stored} LOCATION 'sim://bucket/{}/'", t.name, t.name);
+        sess.ctx.sql(&ddl).await.map_err(|e| format!("{ddl}: {e}"))?;
+    }
+    Ok(Some(st))
+}
+
+/// Semantic-neutral options of file scans (only meaningful for file-backed tables).
+pub fn generate_file_cfg(rng: &mut Rng, knobs: &mut Value) {
+    let mut set = |k: &str, v: Value| {
+        knobs[k] = v;
+    };
+    set("datafusion.optimizer.repartition_file_min_size", json!(*rng.pick(&[1u64, 1, 64, 1_000_000])));
+    for (k, den) in [
+        ("datafusion.optimizer.repartition_file_scans", 4),
+        ("datafusion.execution.enable_file_stream_work_stealing", 3),
+        ("datafusion.execution.parquet.pushdown_filters", 2),
+        ("datafusion.execution.parquet.reorder_filters", 3),
+        ("datafusion.execution.parquet.enable_page_index", 4),
+        ("datafusion.execution.parquet.pruning", 6),
+        ("datafusion.execution.parquet.bloom_filter_on_read", 6),
+        ("datafusion.execution.parquet.force_filter_selections", 6),
+        ("datafusion.execution.parquet.schema_force_view_types", 4),
+        ("datafusion.execution.split_file_groups_by_statistics", 6),
+        ("datafusion.execution.collect_statistics", 4),
+    ] {
+        if rng.chance(1, den) {
+            set(k, json!(rng.chance(1, 2)));
+        }
+    }
+    if rng.chance(1, 4) {
+        set("datafusion.execution.parquet.metadata_size_hint", json!(*rng.pick(&[8u64, 64, 524_288])));
+    }
+    if rng.chance(1, 6) {
+        set("datafusion.optimizer.preserve_file_partitions", json!(*rng.pick(&[0u64, 1, 2])));
+    }
+    if rng.chance(1, 6) {
+        set("datafusion.execution.meta_fetch_concurrency", json!(*rng.pick(&[1u64, 2, 32])));
+    }
 }
 
 /// The baseline configuration of C02/C18: default options, every table a single-partition
@@ -598,6 +699,12 @@ pub fn compare_with(got: &[Cells], want: &[Cells], mode: &crate::queries::Compar
             None
         }
     }
+}
+/// (some expected row is missing from `got`, some row of `got` is not expected) as multisets.
+pub fn missing_extra(got: &[Cells], want: &[Cells]) -> (bool, bool) {
+    let missing = want.iter().any(|r| count(want, r) > count(got, r));
+    let extra = got.iter().any(|r| count(got, r) > count(want, r));
+    (missing, extra)
 }
 fn count(v: &[Cells], r: &Cells) -> usize {
     v.iter().filter(|x| *x == r).count()
